@@ -193,6 +193,7 @@ package internal_planner
 // effect when it is called one frame deeper, from a closure that was deferred).
 //@ func (*GenericPlanner).WrapProcess$1 [C12]
 //@   flag defers-first=shared.TamePanic
+//@   flag defers-before=close<shared.TamePanic
 //@   flag may-panic
 
 // The limit stage forwards at most `limit` entries: the slice it cuts off a batch
